@@ -201,7 +201,127 @@ def h14_workers(S, n_msgs=2):
     S.check("each-successful-job-executed-exactly-once", sorted(runs) == list(range(n_msgs)), info=str(runs))
 
 
+def h14_handover(S):
+    """Worker A stops at its message limit while its job may outlive the graceful period; worker B takes over afterwards."""
+    from repid import Job, Router, Worker
+    from repid.converter import BasicConverter
+
+    d = S.real("job_duration", 0, Fraction(4, 1000), lo_strict=True)
+    g = S.real("graceful_period", 0, Fraction(4, 1000))
+    active = {"n": 0}
+    entered, completed = [], []
+    out = {}
+
+    async def main(loop):
+        w = World()
+        await w.open(record=False)
+        r = Router()
+
+        @r.actor(converter=BasicConverter)
+        async def job(i: int):
+            active["n"] += 1
+            entered.append(i)
+            S.check("one-holder-at-a-time", active["n"] <= 1, info=f"the job is being executed {active['n']} times at once")
+            try:
+                await asyncio.sleep(d)
+                completed.append(i)
+            finally:
+                active["n"] -= 1
+
+        await Job("job", args={"i": 0}, id_="m0", _connection=w.conn).enqueue()
+        wa = Worker(routers=[r], handle_signals=[], _connection=w.conn, graceful_shutdown_time=g, messages_limit=1, tasks_limit=1)
+        await asyncio.wait_for(wa.run(), timeout=5)
+        out["a_completed"] = list(completed)
+        out["after_a"] = place_names(w.places(), "m0")
+        wb = Worker(routers=[r], handle_signals=[], _connection=w.conn, graceful_shutdown_time=1.0, messages_limit=1, tasks_limit=1)
+        try:
+            await asyncio.wait_for(wb.run(), timeout=Fraction(1, 10))
+        except asyncio.TimeoutError:
+            pass
+        await asyncio.sleep(Fraction(1, 50))
+        out["places"] = w.places()
+
+    run_async(main)
+    # a forced cancellation may interrupt the first worker anywhere, also while it reports a finished run: then the message is
+    # handed back (C03) and runs again; what must never happen is a second execution of a message the first worker disposed of,
+    # or two executions at once
+    S.check("first-worker-leaves-the-message-disposed-or-waiting", out["after_a"] in ([], ["waiting"]), info=str(out["after_a"]))
+    if out["after_a"] == []:
+        S.cover("completed-by-the-first-worker")
+        S.check("each-successful-job-executed-exactly-once", entered == [0] and completed == [0], info=f"entered={entered} completed={completed}")
+    else:
+        S.cover("handed-over")
+        S.check("handed-over-job-runs-once-more", entered == [0, 0] and completed[-1:] == [0], info=f"entered={entered} completed={completed}")
+    S.check("nothing-left-behind", place_names(out["places"], "m0") == [], info=str(place_names(out["places"], "m0")))
+
+
+def h14_store_failure(S):
+    """A failing, slow result store after the retry was already requeued: the requeued copy belongs to whoever took it."""
+    from repid import Job, Router, Worker
+    from repid.converter import BasicConverter
+
+    lat = S.real("result_store_latency", 0, Fraction(6, 1000))
+    d = Fraction(2, 1000)
+    active = {"n": 0}
+    runs = []
+    stores = []
+
+    async def main(loop):
+        w = World(results=True)
+        await w.open(record=False)
+        orig_store = w.rb.store_bucket
+
+        async def store(id_, payload):
+            stores.append(payload.success)
+            await asyncio.sleep(lat)
+            if len(stores) == 1:
+                raise ConnectionError("result storage is down")
+            return await orig_store(id_, payload)
+
+        w.rb.store_bucket = store
+        r = Router()
+
+        @r.actor(converter=BasicConverter, retry_policy=lambda retry_number=1: real_timedelta(0))
+        async def job(i: int):
+            active["n"] += 1
+            runs.append(len(runs))
+            S.check("one-holder-at-a-time", active["n"] <= 1, info=f"the message is being executed {active['n']} times at once")
+            try:
+                await asyncio.sleep(d)
+                if len(runs) == 1:
+                    raise ValueError("first attempt fails")
+            finally:
+                active["n"] -= 1
+
+        await Job("job", args={"i": 0}, id_="m0", retries=1, store_result=True, result_id="r0", _connection=w.conn).enqueue()
+        workers = [Worker(routers=[r], handle_signals=[], _connection=w.conn, graceful_shutdown_time=1.0, tasks_limit=1) for _ in range(2)]
+        cls = w.broker.CONSUMER_CLASS
+        saved = cls.UPDATE_DELAYED_EVERY
+        cls.UPDATE_DELAYED_EVERY = 0.004      # the retried copy (due now) is looked for every 4 ms instead of every second
+        try:
+            tasks = [asyncio.create_task(x.run()) for x in workers]
+            await asyncio.sleep(Fraction(1, 20))
+            for t in tasks:
+                t.cancel()
+            await asyncio.gather(*tasks, return_exceptions=True)
+        finally:
+            cls.UPDATE_DELAYED_EVERY = saved
+
+    run_async(main)
+    S.cover("store-failed-after-requeue")
+    S.check("each-attempt-executed-exactly-once", len(runs) == 2, info=f"executions: {len(runs)} (one failing attempt and one retry expected)")
+
+
 HARNESSES = [
+    Harness(name="H14-store-failure", scenario=h14_store_failure, workers=8,
+            bounds={"result store": "any real latency in [0, 6 ms], fails once after the retry was requeued", "attempt duration": "2 ms",
+                    "workers": "2 on one in-memory queue, zero back-off, delayed rescan every 4 ms"},
+            functions=["_processor.py:_Processor.process", "_runner.py:_Runner._process_with_event"], covers=["store-failed-after-requeue"]),
+    Harness(name="H14-handover", scenario=h14_handover, workers=8,
+            bounds={"job duration": "any real in (0, 4 ms]", "graceful period of the first worker": "any real in [0, 4 ms] (shorter, equal, longer than the job)",
+                    "workers": "A stops at messages_limit=1; B starts on the same queue when A's run() has returned"},
+            functions=["_runner.py:_Runner.finish_gracefully", "_runner.py:_Runner._process_with_event", "worker.py:Worker.run"],
+            covers=["handed-over", "completed-by-the-first-worker"]),
     Harness(name="H14-mem", scenario=h14_mem, workers=16, budget_s=900,
             params={"quick": {"steps": 4, "n_msgs": 2}, "thorough": {"steps": 5, "n_msgs": 2}},
             bounds={"consumers": "2 on one in-memory queue", "messages": "2", "history": "4 quick / 5 thorough calls from {A.consume, B.consume, A.finish, B.finish, ack/reject by the holder}"},
